@@ -1200,6 +1200,13 @@ func (m *Memberlist) suspectNode(s *suspect) {
 
 	// If this is us we need to refute, otherwise re-broadcast
 	if state.Name == m.config.Name {
+		// If we are leaving we do not refute: raising our incarnation now
+		// would make the departure that Leave is about to announce (with
+		// the incarnation it has already read) stale, so it would be
+		// ignored by ourselves and never broadcast.
+		if m.hasLeft() {
+			return
+		}
 		m.refute(state, s.Incarnation)
 		m.logger.Printf("[WARN] memberlist: Refuting a suspect message (from: %s)", s.From)
 		return // Do not mark ourself suspect
